@@ -43,7 +43,9 @@ VARIANTS = {
     "resize": [("resize", "ba", "x.resize(8, 0); std::hint::black_box(x.len());"),
                ("resize_trait", "ba", "ResizableBytes::resize(&mut x, 2, 0);")],
     "clone": [("clone", "ba", "let y = x.clone(); drop(y);"),
-              ("clone_trait", "ba", "let y = Clone::clone(&x); drop(y);")],
+              ("clone_trait", "ba", "let y = Clone::clone(&x); drop(y);"),
+              ("clone_from", "ba", "let mut y: T = mk(); y.clone_from(&x); std::hint::black_box(&y); drop(y);"),
+              ("clone_from_other_len", "b", "let mut y = x.clone(); let z = x.clone(); y.clone_from(&z); drop(z); drop(y);")],
     # after a permitted transition the result is USED the way its new type allows (a transition that only changes the
     # type and not the pages would otherwise go unnoticed): {USE_SAME} = views of the unchanged protect mode
     "lock": [("mlock", "ba", "let r = x.mlock(); if let Ok(mut y) = r { {USE_SAME} drop(y); }")],
@@ -54,6 +56,44 @@ VARIANTS = {
     "useAfter": [("moved", "ba", "let y = x.mprotect_readonly(); let z = x.munlock(); drop(y); drop(z);"),
                  ("moved_lock", "ba", "let y = x.munlock(); std::hint::black_box(&x); drop(y);")],
 }
+# spellings of a READ or a WRITE of the bytes through traits the type-state table does not name (comparison, formatting, hashing,
+# borrowing, iteration, io): whatever the crate implements, it must not be offered for a state that forbids the access, and
+# where it is offered it must run without a fault.  None of them has to exist.  (kind, name, snippet; `y` is a second region
+# in the same state)
+EXTRA_PROBES = [
+    ("read", "eq", "let y: T = mk(); std::hint::black_box(x == y);"),
+    ("read", "ne", "let y: T = mk(); std::hint::black_box(x != y);"),
+    ("read", "eq_slice", "std::hint::black_box(x == [1u8, 2, 3, 4][..]);"),
+    ("read", "eq_vec", "std::hint::black_box(x == vec![1u8, 2, 3, 4]);"),
+    ("read", "partial_cmp", "let y: T = mk(); std::hint::black_box(x.partial_cmp(&y));"),
+    ("read", "cmp", "let y: T = mk(); std::hint::black_box(x.cmp(&y));"),
+    ("read", "hash", "use std::hash::{Hash, Hasher}; let mut h = std::collections::hash_map::DefaultHasher::new(); x.hash(&mut h); std::hint::black_box(h.finish());"),
+    ("read", "debug", "std::hint::black_box(format!(\"{:?}\", x));"),
+    ("read", "display", "std::hint::black_box(format!(\"{}\", x));"),
+    ("read", "lower_hex", "std::hint::black_box(format!(\"{:x}\", x));"),
+    ("read", "borrow", "let s: &[u8] = std::borrow::Borrow::<[u8]>::borrow(&x); std::hint::black_box(s[0]);"),
+    ("read", "into_iter_ref", "for b in &x { std::hint::black_box(b); }"),
+    ("read", "into_vec", "let v: Vec<u8> = x.into(); std::hint::black_box(v);"),
+    ("read", "vec_from_ref", "let v: Vec<u8> = Vec::from(&x); std::hint::black_box(v);"),
+    ("read", "to_owned_slice", "let v: Vec<u8> = x.to_owned().to_vec(); std::hint::black_box(v);"),
+    ("read", "io_read", "let mut b = [0u8; 2]; let mut r: &[u8] = x.as_ref(); std::hint::black_box(std::io::Read::read(&mut r, &mut b).is_ok());"),
+    ("read", "first", "std::hint::black_box(x.first().copied());"),
+    ("read", "contains", "std::hint::black_box(x.contains(&1u8));"),
+    ("read", "ct_eq", "let y: T = mk(); std::hint::black_box(subtle_like(&x, &y));"),
+    ("write", "borrow_mut", "let s: &mut [u8] = std::borrow::BorrowMut::<[u8]>::borrow_mut(&mut x); s[0] = 9;"),
+    ("write", "iter_mut", "for b in x.iter_mut() { *b = 1; }"),
+    ("write", "into_iter_mut", "for b in &mut x { *b = 1; }"),
+    ("write", "clone_from_slice", "x.clone_from_slice(&[1u8, 2, 3, 4]);"),
+    ("write", "swap", "x.swap(0, 1);"),
+    ("write", "reverse", "x.reverse();"),
+    ("write", "io_write", "std::hint::black_box(std::io::Write::write(&mut x, &[1u8]).is_ok());"),
+    ("write", "truncate", "x.truncate(1);"),
+    ("write", "extend", "x.extend_from_slice(&[1u8]);"),
+    ("write", "push", "x.push(1u8);"),
+    ("write", "clear", "x.clear();"),
+]
+
+
 STREAM_VARIANTS = {
     "push": [("push_to_vec", "let c: Vec<u8> = s.push_to_vec(&msg, None, Tag::MESSAGE).unwrap(); std::hint::black_box(c);"),
              ("push", "let c: Vec<u8> = s.push(&msg, None, Tag::MESSAGE).unwrap(); std::hint::black_box(c);")],
@@ -171,6 +211,19 @@ def run(tier, seed):
             runnable = want == "permit" and not (pm == "na" and lm == "locked")
             jobs.append(("c_%s_%s_%s_%s_%s" % (cont, pm, lm, op, vname), program(cont, pm, lm, snippet), rlib, deps, outdir, runnable))
             info.append((i, vname, primary, want))
+    # extra probes (outside the table): forbidden → must not compile; otherwise, if it compiles it must run cleanly
+    extra_lines = []
+    for cont in CONTS:
+        for pm in PMS:
+            for lm in LMS:
+                for kind, pname, snippet in EXTRA_PROBES:
+                    if pname == "ct_eq":
+                        continue
+                    forbidden = pm == "na" or (kind == "write" and pm == "ro")
+                    runnable = not forbidden and not (pm == "na" and lm == "locked")
+                    jobs.append(("x_%s_%s_%s_%s" % (cont, pm, lm, pname), program(cont, pm, lm, snippet), rlib, deps, outdir, runnable))
+                    extra_lines.append("typestate_extra %s %s %s %s:%s" % (cont, pm, lm, kind, pname))
+                    info.append((-len(extra_lines), pname, False, "reject" if forbidden else "offered?"))
     for j, (m, o) in enumerate(scells):
         want = model.get(str(len(cells) + j), ["?"])[0]
         for vi, (vname, call) in enumerate(STREAM_VARIANTS[o]):
@@ -183,10 +236,18 @@ def run(tier, seed):
         res.evaluations += 1
         res.count("want=%s/%s" % (want, "primary" if primary else "other-spelling"))
         res.distinct.add(name + str(compiled))
-        line = lines[ci].split(" ", 1)[1] + " [" + vname + "]"
+        line = (extra_lines[-ci - 1] if ci < 0 else lines[ci].split(" ", 1)[1]) + " [" + vname + "]"
         answers = {"model": want, "compiled": compiled, "error_codes": codes[:4], "exit": ran, "program": job[1]}
         if len(res.samples) < 8 and res.evaluations % 37 == 0:
             res.samples.append({"cell": line, "expected": want, "compiled": compiled, "error_codes": codes[:3], "exit": ran})
+        if want == "offered?":
+            # not in the table: nothing is required to exist; what does compile must run without a fault
+            if compiled and ran is not None and ran != 0:
+                res.violations.append({"kind": "predicate", "line": line, "answers": answers, "why": "an access the state permits, offered through %s, faulted at run time (exit %s)" % (vname, ran)})
+            res.extra["extra_probes_offered"] = res.extra.get("extra_probes_offered", 0) + (1 if compiled else 0)
+            continue
+        if want == "reject" and ci < 0 and not compiled:
+            continue        # any compile error will do for a probe the crate does not offer at all
         if want == "reject" and compiled:
             res.violations.append({"kind": "predicate", "line": line, "answers": answers, "why": "a program the type-state table forbids compiles (spelling %s)" % vname})
         elif want == "reject" and not (set(codes) & ACCEPTED_ERRORS):
